@@ -617,3 +617,11 @@ Print Assumptions gen_bitdyn_union_eq.
 Print Assumptions gen_bitdyn_from_ssz_bytes_eq.
 Print Assumptions gen_bitlist_ssz_append_eq.
 Print Assumptions gen_bitlist_resize_eq.
+
+(** [Hash]: what the source feeds to the hasher is the model's [bf_hash_stream] *)
+Theorem gen_bitfield_hash_eq b st : Gen.bitfield_hash b st = Ok (st ++ bf_hash_stream (bf_abs b)).
+Proof.
+  unfold Gen.bitfield_hash, hash_bytes, hash_usize, bf_hash_stream. destruct b as [bs l]. cbn [Gen.Bitfield_bytes Gen.Bitfield_len bf_abs bf_bytes bf_len].
+  rewrite <- !app_assoc. reflexivity.
+Qed.
+Print Assumptions gen_bitfield_hash_eq.
